@@ -190,7 +190,8 @@ def run_history(seed):
             plan.set(uid, list(actions))
             lbp.order = list(order)
             m_seen, m_log = len(plan.seen), len(pol.log)
-            rec.execute_async(session, uid, statement=st, timeout=60.0)
+            with env.world.inspect():       # callbacks registered before any answer can be processed
+                rec.execute_async(session, uid, statement=st, timeout=60.0)
             env.world.settle(advance=False)
             phase = {}
             if spec:
@@ -332,7 +333,7 @@ def run(ctx):
     ctx.assume("no client timeouts and no timeout/response races here (C14/C15); virtual time only moves in the speculative phase, and the "
                "statement with a speculative phase is the last one of its history")
     n = ctx.scale(900, 70000)
-    budget = 45 if ctx.quick else 420
+    budget = 40 if ctx.quick else 420
     base = ctx.seed * 1000003 + (ctx.worker or 0) * 100003
     for i in range(n):
         if ctx.time_left(budget) < 0:
